@@ -20,8 +20,21 @@ def run_groups(jobs, nproc=None):
         for j in jobs: out += _run(j)
         return out
     ctx = mp.get_context('fork')
-    with ctx.Pool(nproc) as pool:
-        res = pool.map(_run, jobs, chunksize=1)
-    out = []
-    for r in res: out += r
+    # watchdog: a job that does not come back (an engine loop on unexpected code, a lost worker) ends as `inconclusive` instead of hanging
+    # the check; the budget is per check, generous against the slowest clean-tree job
+    import time
+    budget = float(os.environ.get('DV_JOB_BUDGET', '1500' if os.environ.get('VERIF_TIER', 'quick') == 'quick' else '7200'))
+    pool = ctx.Pool(nproc)
+    try:
+        handles = [pool.apply_async(_run, (j,)) for j in jobs]
+        deadline = time.time() + budget
+        out = []
+        for j, h in zip(jobs, handles):
+            try: out += h.get(timeout=max(1.0, deadline - time.time()))
+            except mp.TimeoutError:
+                out.append(Ob(f'{j[0]}', 'inconclusive', f'no result within the {int(budget)} s budget of this check (job abandoned)', 0, 'driver'))
+            except Exception as e:
+                out.append(Ob(f'{j[0]}', 'inconclusive', f'worker failed: {type(e).__name__}: {str(e)[:200]}', 0, 'driver'))
+    finally:
+        pool.terminate(); pool.join()
     return out
